@@ -352,6 +352,8 @@ def run(ctx):
     rng = ctx.rng("c20")
     thorough = ctx.tier == "thorough"
     for d in range(60 if thorough else 6):
+        if ctx.over_budget():
+            break
         w = gen.gen_world(rng, max_arity=3 if rng.random() < 0.3 else 2)
         acts = []
         for i in range(5):
